@@ -45,7 +45,7 @@ def generate(seed, tier):
             n = cfg["gen"]["num_jobs"][1] * cfg["gen"]["num_machines"][1]
         ops = [["env_reset"]] + [["env_step", rng.randrange(64), rng.randrange(64), int(rng.random() < 0.3), int(rng.random() < 0.5)] for _ in range(min(n, 12))]
         return {"prop": PROP, "kind": "env", "cfg": cfg, "ops": ops, "arg_seed": rng.randrange(1 << 30)}
-    names, style = gen_filter(rng, None, p_none=0.5)
+    names, style = gen_filter(rng, None, p_none=0.5, user=0.15)
     spec = gen_instance(rng, sparse_ids=0.03, max_jobs=4, max_machines=4, max_ops=4, positive=True if names else None)
     n = n_ops(spec)
     ops = [["dispatch", rng.randrange(64), rng.randrange(64), int(rng.random() < 0.5)] for _ in range(n if rng.random() < 0.7 else rng.randint(0, n))]
